@@ -251,7 +251,7 @@ pub fn run_cross(rng: &mut Rng, count: usize, thorough: bool, extra: &[String], 
                 let fresh = guarded(|| run_query(&af, sem, qq.0, qq.1, enc, &qq.2, default_factory()));
                 out.out(&format!(
                     "seq {} {} {} {} {} {} => {} fresh {}",
-                    sem, enc, k, qq.0, if qq.1 { 1 } else { 0 }, join(qq.2.iter(), ","), acc_string(&on_one), acc_string(&fresh)
+                    sem, enc, k, qq.0, if qq.1 { 1 } else { 0 }, if qq.2.is_empty() { "-".to_string() } else { join(qq.2.iter(), ",") }, acc_string(&on_one), acc_string(&fresh)
                 ));
             }
         }
